@@ -1092,6 +1092,7 @@ var Rules = []report.Rule{
 	{ID: "G27", Floor: 3, Props: []string{"C14"}, Text: "the sentinel types of output-less tasks and of predicates are keys of the same structural type map as user types: the two families differ in their field type, and each member is named after the family's counter, incremented unconditionally first"},
 	{ID: "G32", Floor: 3, Props: []string{"C14"}, Text: "a cff.Params value is struck off the unused list only where no task provides its type, leftovers are reported, and no diagnostic of compileFlow's option loop depends on what other options contributed so far (acceptance is independent of the order of the options)"},
 	{ID: "G33", Floor: 5, Props: []string{"C13", "C20"}, Text: "every type handed to a type printer (base and modifier mode) is first checked for nameability where the generated code is placed - not an unexported type of another package, not a name that means something else at the directive, not a function-local type or type parameter in top-level code - and what the check records is returned by the driver between rendering and writing the output. Found F12, repaired."},
+	{ID: "G34", Floor: 2, Props: []string{"C13"}, Text: "a directive whose context argument is the literal nil (which type-checks, and which the hoisting printer prints in place: `ctx := nil`) is rejected when it is compiled: IsNil() of the argument stored in Ctx leads to a diagnostic, in compileFlow and compileParallel. Found F13, repaired."},
 	{ID: "G31", Floor: 5, Props: []string{"C13"}, Text: "every package name the base-mode generator hands to the templates (the import function, the type qualifier) is looked up in the scope of the directive first, and the recorded errors are returned before the output is written"},
 	{ID: "G30", Floor: 2, Props: []string{"C13"}, Text: "after compiling a Flow/Parallel directive the file walker either descends into it or scans its arguments for nested directives and reports them: no directive call is left unprocessed silently"},
 	{ID: "G28", Floor: 2, Props: []string{"C14"}, Text: "memo / visited-set keys of the validators' graph searches are total over the nodes: the key is the node (or its structural type) itself, or a field that every constructor of the node sets"},
@@ -1162,6 +1163,7 @@ func Run(repo *load.Repo, s *report.Sink) error {
 		{[]string{"G31"}, c.packageVisibility},
 		{[]string{"G32"}, c.inputAccounting},
 		{[]string{"G33"}, c.typeNameability},
+		{[]string{"G34"}, c.nilContext},
 		{[]string{"G29"}, c.structuralAssertions},
 	}
 	for _, st := range steps {
